@@ -140,7 +140,9 @@ func (n *normaliser) tableLiteral(fd *ast.FuncDecl, e ast.Expr) *ast.CompositeLi
 		return nil
 	}
 	if _, isMap := obj.Type().Underlying().(*types.Map); !isMap {
-		return nil
+		if _, isArr := obj.Type().Underlying().(*types.Array); !isArr || !n.arraysToo {
+			return nil
+		}
 	}
 	var lit *ast.CompositeLit
 	var scope []ast.Node
